@@ -697,8 +697,14 @@ func (r *runner) finalChecks() {
 	if r.has("pagination") {
 		r.addV(checkWalks(r)...)
 	}
+	if r.has("statements-stay-in-ledger") {
+		r.addV(checkStatementsStayInLedger(r)...)
+	}
 	if r.has("reads-are-scoped") {
 		r.addV(checkReadsAreScoped(r)...)
+	}
+	if r.has("metadata-history-rows") {
+		r.addV(checkMetadataHistoryRows(r)...)
 	}
 	if r.has("metadata-history-reads") {
 		r.addV(checkMetadataHistoryReads(r)...)
